@@ -248,19 +248,36 @@ class _Model:
 
 
 def fold_struct_rw(repo: Repo, max_len: int = 2) -> dict | None:
-    out: dict = {"cases": 0, "bad": []}
-    try:
-        for endian in "<>":
-            m = _Model(repo, endian)
-            for seq in _cases(max_len if endian == "<" else min(max_len, 1)):
+    from .foldpool import cached, pmap
+
+    def chunk(work: list) -> dict:
+        out: dict = {"cases": 0, "bad": [], "refused": False}
+        models: dict[str, _Model] = {}
+        try:
+            for endian, seq in work:
+                m = models.get(endian) or models.setdefault(endian, _Model(repo, endian))
                 for align in (False, True):
                     for start in (0, 16, 3):
                         out["cases"] += 1
                         complaints = m.run(seq, align, start)
                         if complaints and len(out["bad"]) < 6:
                             out["bad"].append((list(seq), "aligned" if align else "packed", f"endian {endian}", f"stream at {start}", complaints[0]))
+        except (Refused, Exhausted):
+            out["refused"] = True
+        except (TypeError, KeyError, IndexError, ValueError, AttributeError, AssertionError):
+            out["refused"] = True
         return out
-    except (Refused, Exhausted):
-        return None
-    except (TypeError, KeyError, IndexError, ValueError, AttributeError, AssertionError):
-        return None
+
+    def compute() -> dict | None:
+        work = [(endian, seq) for endian in "<>" for seq in _cases(max_len if endian == "<" else min(max_len, 1))]
+        parts = pmap(chunk, work)
+        if any(p_["refused"] for p_ in parts):
+            return None
+        out: dict = {"cases": sum(p_["cases"] for p_ in parts), "bad": []}
+        for p_ in parts:
+            out["bad"] += p_["bad"]
+        out["bad"].sort(key=lambda b_: (len(b_[0]), b_[0], b_[1:4]))
+        out["bad"] = [tuple(b_) for b_ in out["bad"][:6]]
+        return out
+
+    return cached(repo, "structrw", ("types/structure.py", "bitbuffer.py"), max_len, compute)
